@@ -373,6 +373,31 @@ func init() {
 				}
 			}
 		}
+		// a nil slice (by value, or behind a pointer) is an empty sequence: no groups, no error
+		{
+			var nps *[]int
+			for _, v := range []interface{}{[]int(nil), []string(nil), []interface{}(nil), &[]int{}, nps} {
+				func() {
+					defer func() {
+						if r := recover(); r != nil {
+							e.Violate("c19-groupby-nonseq-panic", fmt.Sprintf("groupBy(2, %T nil) panicked: %v", v, r), fmt.Sprintf("%T", v))
+						}
+					}()
+					for name, f := range map[string]func(int, interface{}) (iterators.Iterator, error){"iterators.GroupBy": iterators.GroupBy, "plush.GroupByHelper": func(n int, u interface{}) (iterators.Iterator, error) { return plush.GroupByHelper(n, u) }} {
+						e.rep.Evaluations++
+						if v == interface{}(nps) {
+							continue // a nil pointer is not a sequence: either answer is acceptable, a panic is not
+						}
+						it, err := f(2, v)
+						if err != nil {
+							e.Violate("c19-groupby", fmt.Sprintf("%s(2, %T with no elements) failed: %v", name, v, err), fmt.Sprintf("%T", v))
+						} else if it != nil && it.Next() != nil {
+							e.Violate("c19-groupby", fmt.Sprintf("%s(2, %T with no elements) yields a group", name, v), fmt.Sprintf("%T", v))
+						}
+					}
+				}()
+			}
+		}
 		// non-sequences are errors
 		for _, v := range []interface{}{1, "abc", map[string]int{"a": 1}, nil, struct{}{}, 1.5} {
 			func() {
